@@ -184,23 +184,29 @@ and the old children parentless).  In every state reachable by any history of ad
 setters / `+` / copy(), a REJECTED assignment `c.children = objs`, `c.sources = objs`, `c.sensors = objs` or
 `c.collections = objs` — an entry that is no magpylib object, the collection itself or one of its ancestors, an
 entry given twice, … — leaves the WHOLE forest identical: every parent pointer, every children list, every stored
-typed view, of every object.  The model follows `_replace_children` statement by statement (unlink the old
+typed view, of every object.  Second clause: the assigned value may be a BARE value (no list / tuple): since repo fix
+045b334 it is wrapped into a list of one, so `c.children = 5` / `= None` reach `add` and are refused like any other
+foreign entry (before: a TypeError from the argument unpacking).  Third clause, typed setters: since 045b334 an entry
+that is no Magpylib object is refused by ALL three of them (`c.collections = [d, 5]` used to drop the 5 silently and
+succeed).  The model follows `_replace_children` statement by statement (unlink the old
 children, filter `_children`, refresh the views, try `add`, on the exception put the old list back, re-parent,
 refresh); that the restore reproduces the state exactly uses the consistency of the state before
 (`restore_unlinked`: the removed children's parent WAS the collection, the views WERE the typed filters). -/
 theorem setter_rejected_changes_nothing (kinds : List Kind) (ops : List COp) (c : Nat) :
     let s := ops.foldl (fun s op => (s.stepC op).1) (Forest.init kinds)
     (∀ objs, (s.step (.setChildren c objs)).2 = false → (s.step (.setChildren c objs)).1 = s) ∧
+    (∀ a : ChildrenArg, (s.step (.setChildren c a.toList)).2 = false → (s.step (.setChildren c a.toList)).1 = s) ∧
     (∀ k objs, (s.step (.setTyped c k objs)).2 = false → (s.step (.setTyped c k objs)).1 = s) := by
   intro s
   have hi : s.Inv := (inv_reachable_with_copy kinds ops).1
   obtain ⟨h1, h2⟩ := setter_rejected_unchanged s hi c
-  constructor
-  · intro objs hr
+  have hch : ∀ objs, (s.step (.setChildren c objs)).2 = false → (s.step (.setChildren c objs)).1 = s := by
+    intro objs hr
     simp only [step] at hr ⊢
     split
     · rename_i hk; rw [if_pos hk] at hr; exact h1 objs hr
     · rfl
+  refine ⟨hch, fun a => hch a.toList, ?_⟩
   · intro k objs hr
     simp only [step] at hr ⊢
     split
@@ -227,6 +233,14 @@ example :
     (s.step (.setChildren 0 [0])).2 = false ∧ (s.step (.setChildren 0 [2, 2])).2 = false ∧
     (s.step (.setTyped 1 .coll [0])).2 = false ∧ (s.step (.setTyped 1 .coll [0])).1.children 1 = [3] ∧
     (s.step (.setTyped 0 .sens [3, 900])).2 = false ∧
+    -- since 045b334: `c0.collections = [c1, junk]` is refused (was: junk dropped, accepted), nothing changes
+    (s.step (.setTyped 0 .coll [1, 900])).2 = false ∧ (s.step (.setTyped 0 .coll [1, 900])).1.children 0 = [2, 1] ∧
+    (s.step (.setTyped 0 .coll [1, 900])).1.parent 1 = some 0 ∧ (s.step (.setTyped 0 .coll [1])).2 = true ∧
+    -- bare values: `c0.children = 5` is refused, `c0.children = <source 2>` is a list of one
+    (s.step (.setChildren 0 (ChildrenArg.bare 900).toList)).2 = false ∧
+    (s.step (.setChildren 0 (ChildrenArg.bare 900).toList)).1.children 0 = [2, 1] ∧
+    (s.step (.setChildren 0 (ChildrenArg.bare 2).toList)).2 = true ∧
+    (s.step (.setChildren 0 (ChildrenArg.bare 2).toList)).1.children 0 = [2] ∧
     (s.step (.setChildren 0 [1, 2])).2 = true ∧ (s.step (.setChildren 0 [1, 2])).1.children 0 = [1, 2] ∧
     (s.step (.setTyped 0 .src [1])).2 = true ∧ (s.step (.setTyped 0 .src [1])).1.children 0 = [1] := by
   decide
